@@ -115,9 +115,15 @@ func main() {
 		}
 		// history: conversion and the parts that convert internally must leave the database entry alone
 		(&obj.ThreadedCylinderParms{Height: 10, Diameter: 100, Thread: n, Tolerance: 0}).Object()
+		// and every part that takes a tolerance, with a tolerance (twice: a drift accumulates)
+		for rep := 0; rep < 2; rep++ {
+			(&obj.ThreadedCylinderParms{Height: 10, Diameter: 100, Thread: n, Tolerance: 0.15}).Object()
+			obj.Nut(&obj.NutParms{Thread: n, Style: "hex", Tolerance: 0.1})
+			obj.Bolt(&obj.BoltParms{Thread: n, Style: "hex", Tolerance: 0.1, TotalLength: 20 * before.Pitch, ShankLength: 2 * before.Pitch})
+		}
 		after, _ := sdf.ThreadLookup(n)
 		if after == nil || *after != before {
-			c.Violation("threadDB|entry-changed-by-unit-conversion", fmt.Sprintf("%s: entry was %+v, after ToMillimetre / ThreadedCylinderParms.Object it is %+v", n, before, after), desc)
+			c.Violation("threadDB|entry-changed-by-unit-conversion", fmt.Sprintf("%s: entry was %+v, after ToMillimetre / ThreadedCylinderParms.Object / Nut / Bolt (with tolerances) it is %+v", n, before, after), desc)
 			*after = before // restore for the rest of the run
 		}
 		trans += 6
